@@ -11,11 +11,11 @@ Definition cmp_tab := [(Gt, RelGt); (GtE, RelGe); (Lt, RelLt); (LtE, RelLe); (CE
 Definition cmp_tab_struct := [(Gt, RelGt); (GtE, RelGe); (Lt, RelLt); (LtE, RelLe); (CEq, StructEq); (CNe, StructNe)].
 
 Definition facts_seq_subs : facts :=
-  mkFacts bin_tab un_tab cmp_tab true SubsSeq TupSim StmtRaise (CfContinuation BrCopy BrCopy) true true true ConstAtCall FbLastAssigned ArityStrictNonEmpty.
+  mkFacts bin_tab un_tab cmp_tab true SubsSeq TupSim StmtRaise (CfContinuation BrCopy BrCopy) KwRefused true true ConstAtCall FbLastAssigned ArityStrictNonEmpty AnRefuse.
 Definition facts_struct_eq : facts :=
-  mkFacts bin_tab un_tab cmp_tab_struct true SubsSim TupSim StmtRaise (CfContinuation BrCopy BrCopy) true true true ConstAtCall FbLastAssigned ArityStrictNonEmpty.
+  mkFacts bin_tab un_tab cmp_tab_struct true SubsSim TupSim StmtRaise (CfContinuation BrCopy BrCopy) KwRefused true true ConstAtCall FbLastAssigned ArityStrictNonEmpty AnRefuse.
 Definition facts_seq_tuple : facts :=
-  mkFacts bin_tab un_tab cmp_tab true SubsSim TupSeq StmtRaise (CfContinuation BrCopy BrCopy) true true true ConstAtCall FbLastAssigned ArityStrictNonEmpty.
+  mkFacts bin_tab un_tab cmp_tab true SubsSim TupSeq StmtRaise (CfContinuation BrCopy BrCopy) KwRefused true true ConstAtCall FbLastAssigned ArityStrictNonEmpty AnRefuse.
 
 (** def swap(a, b): return a - b *)
 Definition w_swap : fundef := mkFun [1; 2] [] [] (SCons (SReturn (EBin Sub (EVar 1) (EVar 2))) SNil).
@@ -119,7 +119,7 @@ Qed.
     The translator model with the OTHER shapes the fact [f_cf] can take returns wrong expressions on
     the corpus witnesses (harness/c06_corpus.py: leak, after_else, guard_then_reassign). *)
 Definition facts_cf (m : cf_mode) : facts :=
-  mkFacts bin_tab un_tab cmp_tab true SubsSim TupSim StmtRaise m true true true ConstAtCall FbLastAssigned ArityStrictNonEmpty.
+  mkFacts bin_tab un_tab cmp_tab true SubsSim TupSim StmtRaise m KwRefused true true ConstAtCall FbLastAssigned ArityStrictNonEmpty AnRefuse.
 (** one copy handed to both recursive calls (seeded C07-2) *)
 Definition facts_shared_copy : facts := facts_cf (CfContinuation BrShared BrShared).
 (** the if-branch works on the enclosing table itself *)
@@ -130,7 +130,7 @@ Definition facts_copy_if_binds : facts := facts_cf (CfContinuation BrCopyIfBinds
 Definition facts_old_pieces : facts := facts_cf CfOldPieces.
 (** constants through a per-module memo (seeded C06-3) *)
 Definition facts_cached_consts : facts :=
-  mkFacts bin_tab un_tab cmp_tab true SubsSim TupSim StmtRaise (CfContinuation BrCopy BrCopy) true true true ConstCached FbLastAssigned ArityStrictNonEmpty.
+  mkFacts bin_tab un_tab cmp_tab true SubsSim TupSim StmtRaise (CfContinuation BrCopy BrCopy) KwRefused true true ConstCached FbLastAssigned ArityStrictNonEmpty AnRefuse.
 
 (** def leak(a):  b = 0 ; if a > 1: b = a ; return b *)
 Definition w_leak : fundef :=
@@ -301,7 +301,7 @@ Definition cm_f_with (call : expr) : mfun :=
                                   (SCons (SReturn (EVar 50)) SNil)) SNil)) SNil))
     (SCons (SReturn (EBin Add (EVar 4) (ENum 1))) SNil)).
 Definition cm_f : mfun := cm_f_with (ECall 0 (ECons (EVar 2) (ECons (EVar 1) ENil))).
-Definition cm_f_kw : mfun := cm_f_with (ECallKw 0 (ECons (EVar 2) (ECons (EVar 1) ENil))).
+Definition cm_f_kw : mfun := cm_f_with (ECallKw 0 [0%nat; 1%nat] (ECons (EVar 2) (ECons (EVar 1) ENil))).
 Definition cm_env : cenv := [(0, [(50, 5#2)]); (1, [(50, 3#2)])].
 (** model names: a -> v2 (the name of the function's own b), b -> v1, c -> v9 *)
 Definition cm_margs : list sexpr := [SSym 2; SSym 1; SSym 9].
@@ -329,8 +329,8 @@ Qed.
       def allopt(n=2.0):        return n * 3
       def caller0(a):           return a + allopt()                  # zero arguments, all defaulted *)
 Definition facts_arity (m : arity_mode) : facts :=
-  mkFacts bin_tab un_tab cmp_tab true SubsSim TupSim StmtRaise (CfContinuation BrCopy BrCopy) true true true
-    ConstAtCall FbLastAssigned m.
+  mkFacts bin_tab un_tab cmp_tab true SubsSim TupSim StmtRaise (CfContinuation BrCopy BrCopy) KwRefused true true
+    ConstAtCall FbLastAssigned m AnRefuse.
 Definition w_saturation : fundef :=
   mkFun [1; 2] [2#1] []
     (SCons (SReturn (EBin Div (EBin Pow (EVar 1) (EVar 2)) (EBin Add (ENum 1) (EBin Pow (EVar 1) (EVar 2))))) SNil).
@@ -403,4 +403,120 @@ Proof.
   eexists. split; [first [exact I | vm_compute; reflexivity]|].
   split; [vm_compute; reflexivity|].
   repeat split; vm_compute; reflexivity.
+Qed.
+
+(** ---- keyword arguments of a nested call (seeded C06-7) -------------------------------------------
+      def mm(s, km, vmax):          return vmax * s / (km + s)
+      def kw_other_order(s, k, v):  return mm(s, vmax=v, km=k)     # CPython binds BY NAME
+      def kw_only(s, k, v):         return mm(vmax=v, s=s, km=k)
+      def kw_param_order(s, k, v):  return mm(s, km=k, vmax=v)
+    A translator that appends the keyword values to the positional arguments in the order they are written
+    ([KwAppended]) reads the first two as mm(s, v, k) and mm(v, s, k). *)
+Definition facts_kw (m : kw_mode) : facts :=
+  mkFacts bin_tab un_tab cmp_tab true SubsSim TupSim StmtRaise (CfContinuation BrCopy BrCopy) m true true
+    ConstAtCall C06_expected_fallback C06_expected_arity AnRefuse.
+Definition w_mm : fundef :=
+  mkFun [1; 2; 3] [] [] (SCons (SReturn (EBin Div (EBin Mul (EVar 3) (EVar 1)) (EBin Add (EVar 2) (EVar 1)))) SNil).
+Definition w_kw_other_order : fundef :=
+  mkFun [1; 4; 5] [] []
+    (SCons (SReturn (ECallKw 0 [0; 2; 1]%nat (ECons (EVar 1) (ECons (EVar 5) (ECons (EVar 4) ENil))))) SNil).
+Definition w_kw_only : fundef :=
+  mkFun [1; 4; 5] [] []
+    (SCons (SReturn (ECallKw 0 [2; 0; 1]%nat (ECons (EVar 5) (ECons (EVar 1) (ECons (EVar 4) ENil))))) SNil).
+Definition w_kw_param_order : fundef :=
+  mkFun [1; 4; 5] [] []
+    (SCons (SReturn (ECallKw 0 [0; 1; 2]%nat (ECons (EVar 1) (ECons (EVar 4) (ECons (EVar 5) ENil))))) SNil).
+
+Definition kw_rho : valuation := fun x => assoc x [(1, 1#1); (4, 1#1); (5, 3#1)].
+
+(** python: mm(s=1, km=1, vmax=3) = 3/2;  appended: mm(1, 3, 1) = 1/4  and  mm(3, 1, 1) = 3/4 *)
+Lemma keywords_appended_wrong :
+  (exists e,
+    fn_to_sympy (facts_kw KwAppended) [w_mm; w_kw_other_order] 1 [SSym 1; SSym 4; SSym 5] = Some e /\
+    py_call [w_mm; w_kw_other_order] 1 [1#1; 1#1; 3#1] = Some (3#2) /\
+    Forall2 (fun m x => seval kw_rho m = Some x) [SSym 1; SSym 4; SSym 5] [1#1; 1#1; 3#1] /\
+    seval kw_rho e <> Some (3#2)) /\
+  (exists e,
+    fn_to_sympy (facts_kw KwAppended) [w_mm; w_kw_only] 1 [SSym 1; SSym 4; SSym 5] = Some e /\
+    py_call [w_mm; w_kw_only] 1 [1#1; 1#1; 3#1] = Some (3#2) /\
+    seval kw_rho e <> Some (3#2)).
+Proof.
+  split; eexists.
+  - split; [vm_compute; reflexivity|].
+    split; [vm_compute; reflexivity|].
+    split; [repeat constructor|].
+    vm_compute. discriminate.
+  - split; [vm_compute; reflexivity|].
+    split; [vm_compute; reflexivity|].
+    vm_compute. discriminate.
+Qed.
+
+(** the shipped facts refuse all three callers (each HAS a value in Python: keywords are bound by name); written in
+    parameter order even the appending translator is right *)
+Lemma keywords_witnesses :
+  fn_to_sympy expected_facts [w_mm; w_kw_other_order] 1 [SSym 1; SSym 4; SSym 5] = None /\
+  fn_to_sympy expected_facts [w_mm; w_kw_only] 1 [SSym 1; SSym 4; SSym 5] = None /\
+  fn_to_sympy expected_facts [w_mm; w_kw_param_order] 1 [SSym 1; SSym 4; SSym 5] = None /\
+  py_call [w_mm; w_kw_other_order] 1 [1#1; 1#1; 3#1] = Some (3#2) /\
+  py_call [w_mm; w_kw_only] 1 [1#1; 1#1; 3#1] = Some (3#2) /\
+  py_call [w_mm; w_kw_param_order] 1 [1#1; 1#1; 3#1] = Some (3#2) /\
+  py_call [w_mm] 0 [1#1; 3#1; 1#1] = Some (1#4) /\
+  (exists e, fn_to_sympy (facts_kw KwAppended) [w_mm; w_kw_param_order] 1 [SSym 1; SSym 4; SSym 5] = Some e /\
+             seval kw_rho e = Some (3#2)).
+Proof.
+  repeat (split; [vm_compute; reflexivity|]).
+  eexists. split; vm_compute; reflexivity.
+Qed.
+
+(** ---- an assignment whose right-hand side has no expression (seeded C06-6) -------------------------
+      vmax = 10.0                                    # module constant (name 50)
+      def scaled(x, n=2.0): return x * n
+      def rate(s):          vmax = scaled(s) ; return vmax * s     # relies on the default: None, not an exception
+      def rate_round(s):    vmax = round(s)  ; return vmax * s     # round is no function of the module: None
+      def rate_other(s):    w = scaled(s)    ; return w * s        # no module constant called w: KeyError
+      def rate_local(s):    vmax = s * 2     ; return vmax * s     # a translatable local shadows the constant
+    With [AnStore] the None is stored under `vmax`, the later read takes the local for "not a local" and
+    substitutes the module constant: 10 * s  where Python computes 2 * s * s. *)
+Definition facts_assign (m : assign_none_mode) : facts :=
+  mkFacts bin_tab un_tab cmp_tab true SubsSim TupSim StmtRaise (CfContinuation BrCopy BrCopy) KwRefused true true
+    ConstAtCall C06_expected_fallback C06_expected_arity m.
+Definition w_scaled : fundef := mkFun [1; 2] [2#1] [(50, 10#1)] (SCons (SReturn (EBin Mul (EVar 1) (EVar 2))) SNil).
+Definition w_rate_with (x : name) (rhs : expr) : fundef :=
+  mkFun [1] [] [(50, 10#1)] (SCons (SAssign x rhs) (SCons (SReturn (EBin Mul (EVar x) (EVar 1))) SNil)).
+Definition w_rate : fundef := w_rate_with 50 (ECall 0 (ECons (EVar 1) ENil)).
+Definition w_rate_round : fundef := w_rate_with 50 (ECall 9 (ECons (EVar 1) ENil)).
+Definition w_rate_other : fundef := w_rate_with 11 (ECall 0 (ECons (EVar 1) ENil)).
+Definition w_rate_local : fundef := w_rate_with 50 (EBin Mul (EVar 1) (ENum 2)).
+
+Lemma stored_none_wrong :
+  exists e rho,
+    fn_to_sympy (facts_assign AnStore) [w_scaled; w_rate] 1 [SSym 7] = Some e /\
+    py_call [w_scaled; w_rate] 1 [3#1] = Some (18#1) /\
+    Forall2 (fun m x => seval rho m = Some x) [SSym 7] [3#1] /\
+    seval rho e <> Some (18#1).
+Proof.
+  eexists. exists (fun x => assoc x [(7, 3#1)]).
+  split; [vm_compute; reflexivity|].
+  split; [vm_compute; reflexivity|].
+  split; [repeat constructor|].
+  vm_compute. discriminate.
+Qed.
+
+Lemma stored_none_shapes :
+  (* the shipped rule refuses both *)
+  fn_to_sympy expected_facts [w_scaled; w_rate] 1 [SSym 7] = None /\
+  fn_to_sympy expected_facts [w_scaled; w_rate_round] 1 [SSym 7] = None /\
+  (* storing the None: the module constant takes the local's place (mm_rounded of the seeded demo) *)
+  fn_to_sympy (facts_assign AnStore) [w_scaled; w_rate_round] 1 [SSym 7] = Some (SBin Mul (SNum (10#1)) (SSym 7)) /\
+  (* without a constant of that name the read is a KeyError: still a visible failure *)
+  fn_to_sympy (facts_assign AnStore) [w_scaled; w_rate_other] 1 [SSym 7] = None /\
+  (* a translatable local shadows the constant under either rule, and that is what Python does *)
+  fn_to_sympy (facts_assign AnStore) [w_scaled; w_rate_local] 1 [SSym 7] =
+    fn_to_sympy expected_facts [w_scaled; w_rate_local] 1 [SSym 7] /\
+  (exists e, fn_to_sympy expected_facts [w_scaled; w_rate_local] 1 [SSym 7] = Some e /\
+             py_call [w_scaled; w_rate_local] 1 [3#1] = Some (18#1) /\
+             seval (fun x => assoc x [(7, 3#1)]) e = Some (18#1)).
+Proof.
+  repeat (split; [vm_compute; reflexivity|]).
+  eexists. repeat split; vm_compute; reflexivity.
 Qed.
